@@ -22,6 +22,7 @@ import refstie
 import cachetie
 from lib import coq_list
 
+import c12_acceptors
 import c12_families
 
 COQ_TARGETS = ["theories/Proofs/CacheLemmas.vo", "theories/Proofs/CacheMemo.vo", "theories/Model/CacheToy.vo"]
@@ -31,7 +32,7 @@ WORKER = os.path.join(lib.VERIF, "harness", "c12_worker.py")
 THEOREMS = ["C12_memo_transparent", "C12_memo_transparent_immutable", "C12_history_independent",
             "C12_inputs_untouched",
             "C12_refuted_union_order", "C12_refuted_predicate_spelling", "C12_full_refuted"]
-MAXIDX = 8
+MAXIDX = 32
 
 
 # ----------------------------------------------------------------------------------
@@ -661,6 +662,10 @@ def correspond(run: lib.Run):
     fam = c12_families.family_histories(run.tier != "quick", model=True)
     n_random = len(hists)
     hists += [ops for _, ops in fam]
+    # round 4: same-class inputs that different members of one union take, through one union routine (the part over
+    # the model's universe: unions of its scalar types / of lists and dicts of them)
+    acc = c12_acceptors.acceptor_histories(run.tier != "quick", model=True)
+    hists += [ops for _, ops in acc]
     _state["hists"] = hists
     _state["n_random"] = n_random
     pool = Pool(run.budget(12, 14))
@@ -719,7 +724,9 @@ def correspond(run: lib.Run):
     nontriv = len({json.dumps(h) for h in hists if any(o["op"] in ("mutres", "clear") or "old" in o.get("x", {}) for o in h)})
     nontriv += len({json.dumps(h) for h in hists[n_random:]})
     dist["atoms"] = len(A.specs)
-    dist["equal_value_family_histories"] = len(hists) - n_random
+    dist["equal_value_family_histories"] = len(fam)
+    dist["union_acceptor_histories"] = len(acc)
+    dist["union_acceptor_unions"] = len(c12_acceptors.catalogue(True))
     dist["equal_value_families"] = {}
     for lab, _ in fam:
         k = lab.split("/")[0]
@@ -885,6 +892,19 @@ def search(run: lib.Run, broken):
     stats["equal_value_family_differing_operations"] = stf["differing_operations"]
     stats["cold_ops"] += stf["cold_ops"]
     stats["distinct_cold_ops"] += stf["distinct_cold_ops"]
+    # round 4: same-class inputs with different acceptors through one union routine, whole universe (fixed tuples,
+    # structured classes, sets, enums, Literal as members; four positions)
+    done = {json.dumps(h) for h in hists}
+    ah = [ops for _, ops in c12_acceptors.acceptor_histories(run.tier != "quick") if json.dumps(ops) not in done]
+    ar = pool.map([{"kind": "history", "ops": h} for h in ah])
+    sta = {}
+    fails += oracle(pool, ah, ar, sta)
+    run.log("oracle: %d union-acceptor histories, %d cold operations" % (len(ah), sta["cold_ops"]))
+    stats["union_acceptor_histories"] = len(ah)
+    stats["union_acceptor_cold_ops"] = sta["cold_ops"]
+    stats["union_acceptor_differing_operations"] = sta["differing_operations"]
+    stats["cold_ops"] += sta["cold_ops"]
+    stats["distinct_cold_ops"] += sta["distinct_cold_ops"]
     if broken and run.tier == "quick":      # look harder
         rng = random.Random(run.seed + 7)
         more = [gen_history(rng, 16) for _ in range(300)]
